@@ -46,7 +46,8 @@ def run(case, agg):
     key = h8("c16", size, part, info, nc)
     data = content(size)
     with fresh_dir("c16") as d:
-        inp, sto, dfu = (os.path.join(d, x) for x in ("e.suit", "storage.hex", "dfu.hex"))
+        from .. import impl as _impl
+        inp, sto, dfu = (os.path.join(d, _impl.odd_name(st, ext, case["i"])) for st, ext in (("e", "suit"), ("storage", "hex"), ("dfu", "hex")))
         open(inp, "wb").write(data)
         if case["i"] % 3 == 1:
             from .. import impl
